@@ -5,6 +5,7 @@ import (
 	"strings"
 
 	age "github.com/craterdog/go-collection-framework/v4/agent"
+	col "github.com/craterdog/go-collection-framework/v4/collection"
 
 	"verif/harness/internal/core"
 )
@@ -298,4 +299,36 @@ func ReproComplexRank() (bool, string) {
 		return true, "two different vectors with overflowing magnitude rank Equal"
 	}
 	return false, "complex ranking is a total order on the probes"
+}
+
+// ReproMapBehindInterface: two lists whose element type is MapLike hold equal
+// maps built in opposite insertion orders.  which = "rank" (C07) or "compare" (C08).
+func ReproMapBehindInterface(which string) (bool, string) {
+	M := col.Map[string, int](notation)
+	mk := func(rev bool) col.MapLike[string, int] {
+		ks := []string{"a", "b", "c", "d", "e", "f", "g"}
+		m := M.Make()
+		for i := range ks {
+			j := i
+			if rev {
+				j = len(ks) - 1 - i
+			}
+			m.SetValue(ks[j], j)
+		}
+		return m
+	}
+	L := col.List[col.MapLike[string, int]](notation)
+	coll := age.Collator[col.ListLike[col.MapLike[string, int]]]().Make()
+	for i := 0; i < 50; i++ {
+		a := L.MakeFromArray([]col.MapLike[string, int]{mk(false)})
+		b := L.MakeFromArray([]col.MapLike[string, int]{mk(true)})
+		if which == "rank" {
+			if r1, r2 := coll.RankValues(a, b), coll.RankValues(b, a); r1 != age.EqualRank || r2 != age.EqualRank {
+				return true, fmt.Sprintf("two List[MapLike[string,int]] holding equal maps: RankValues(a,b)=%s, RankValues(b,a)=%s", rname(r1), rname(r2))
+			}
+		} else if !coll.CompareValues(a, b) {
+			return true, "two List[MapLike[string,int]] holding equal maps (built in opposite insertion orders) compare unequal"
+		}
+	}
+	return false, "lists of equal maps behind the MapLike interface are Equal"
 }
